@@ -34,7 +34,7 @@ HARD_WALL = 600
 PROFILE = dict(
     p_pool_l=0.25, p_pool_s=0.15, ckpt=True, p_long_sampling=0.2, p_frequent_bounds=0.2,
     fault_kinds=['stop_resume', 'stop_resume', 'stop_resume', 'kill', 'kill',
-                 'slice', 'timeout', 'observe'])
+                 'kill_in_write', 'slice', 'timeout', 'observe'])
 
 STATEMENT_KEYS = ('n_like', 'log_z', 'n_eff', 'posterior')
 
@@ -594,7 +594,8 @@ def main(argv=None):
         if c['status'] == 'ok':
             sigs.add(c['sig_seq'])
             f = c.get('faults') or {}
-            if f.get('stop_resume', 0) + f.get('kill', 0) > 0:
+            if f.get('stop_resume', 0) + f.get('kill', 0) + f.get(
+                    'kill_in_write', 0) > 0:
                 nontriv.add(c['sig_seq'])
                 if len(samples) < 3:
                     samples.append(dict(run=c['i'], ops=c['ops'],
